@@ -22,22 +22,30 @@ THEOREMS = ["C11_no_5xx_refuted", "C11_no_5xx_partial", "C11_4xx_body", "C11_rej
 VO = ["theories/props/C11.vo", "theories/model/HttpObs.vo"]
 
 
+def fallback_routes(srv):
+    """the route table as werkzeug holds it (used only when the translator aborted, to keep the oracles running)"""
+    out = []
+    for r in srv.app.url_map.iter_rules():
+        ms = sorted(m for m in (r.methods or ()) if m not in ("HEAD", "OPTIONS"))
+        out.append((r.rule[len(G.BASE):], ms, r.endpoint.__name__))
+    return out
+
+
 def tie_T(chk):
-    """regenerate Gen_HttpRoutes.v from the current http.py and validate the extraction against werkzeug's own map"""
+    """regenerate Gen_HttpRoutes.v from the current http.py and validate the extraction against werkzeug's own map.
+    -> (extraction or None when the translator aborted, server)"""
     from py2coq import httproutes
+    srv = H.Server()
     try:
         msg = httproutes.regenerate()
         ex = httproutes.extract()
     except Exception as e:
         chk.tie_broken("translation", f"tools/py2coq/httproutes.py aborted: {type(e).__name__}: {e}")
-        return None
+        return None, srv
     chk.notes.append("Gen_HttpRoutes.v " + msg)
     try:
-        srv = H.Server()
         mine = sorted((G.BASE + r, tuple(sorted(ms)), ep) for (r, ms, ep) in ex["routes"])
-        theirs = sorted((r.rule, tuple(sorted(m for m in (r.methods or ()) if m not in ("HEAD", "OPTIONS") or "GET" not in (r.methods or ()))),
-                         r.endpoint.__name__) for r in srv.app.url_map.iter_rules())
-        theirs = sorted((a, tuple(m for m in b if m != "HEAD"), c) for a, b, c in theirs)
+        theirs = sorted((G.BASE + r, tuple(ms), ep) for (r, ms, ep) in fallback_routes(srv))
         if mine != theirs:
             diff = [x for x in mine if x not in theirs][:3] + [x for x in theirs if x not in mine][:3]
             chk.tie_broken("translation-validation", {"what": "route table extracted from the source differs from url_map.iter_rules()", "diff": diff})
@@ -46,10 +54,9 @@ def tie_T(chk):
         if cons != sorted(ex["constructables"]):
             chk.tie_broken("translation-validation", {"what": "type_constructables_map", "source": ex["constructables"], "runtime": cons})
         chk.count("routes", len(mine))
-        return ex, srv
     except Exception as e:
         chk.tie_broken("translation-validation", f"{type(e).__name__}: {e}")
-        return None
+    return ex, srv
 
 
 def signature(prop, req, kind, ep):
@@ -68,7 +75,7 @@ def replay_dict(objs, files, backed, reqs, k):
             "requests": [{kk: (list(v) if isinstance(v, tuple) else v) for kk, v in r.items()} for r in reqs]}
 
 
-def run_cases(chk, srv, ex, plans, tag, prop="C11", shard=25):
+def run_cases(chk, srv, ex, plans, tag, prop="C11", shard=25, model=True):
     """plans: list of (objs, files, backed, reqs, stop_after_mutation).  Runs everything on the SDK
     (oracle per request) and on the model; reports."""
     cases, deferred = [], []
@@ -111,6 +118,8 @@ def run_cases(chk, srv, ex, plans, tag, prop="C11", shard=25):
             chk.fail(signature(prop, d, kind, ep), f"{d['method']} {H.url_of(d)} [{d.get('cls')}]: {text}",
                      replay_dict(objs, files, backed, [d], 0))
     srv.cleanup()
+    if not model:       # the translator aborted: the generated tables the model needs do not describe the source
+        return nreq
     bad, errs = common.run_mismatch_shards(tag, H.PRELUDE, [c[3]["case"] for c in cases], "check_case", shard=shard, jobs=12)
     chk.traces += sum(len(c[3]["reqs"]) for i, c in enumerate(cases) if i not in set(bad))
     for e in errs:
@@ -127,21 +136,24 @@ def run_cases(chk, srv, ex, plans, tag, prop="C11", shard=25):
 def run(chk):
     rng = chk.rng
     logging.disable(logging.CRITICAL)     # the SDK's readers log every rejected body
-    t = tie_T(chk)
+    ex, srv = tie_T(chk)
     chk.theorems("props.C11", THEOREMS, VO)
-    if t is None:
-        return chk.finish(level="proof", rule="translator aborted; no cases run")
-    ex, srv = t
+    model = ex is not None
+    if not model:       # keep searching for a concrete failing input with the oracle alone
+        ex = {"routes": fallback_routes(srv), "functions": {}}
     expects = {q: f["bodies"][0][0] for q, f in ex["functions"].items() if f["bodies"]}
     full = chk.tier == "thorough"
     mx = CS.matrix(ex["routes"], rng, full, expects)
     chk.cov["matrix_size"] = len(mx)
     if not full:
         # quick tier: every (route, method, variation class) once, bodies sampled
-        keep = [r for r in mx if "|body:" not in r["cls"] or r["cls"].endswith("body:missing") or rng.random() < 0.12
+        def xb(r):      # XML-illegal code points: always with an XML Accept on GET, a sample of the rest
+            return "xmlbad" not in r["cls"] or (r["method"] == "GET" and r["accept"][1] != "json") or rng.random() < 0.05
+        keep = [r for r in mx if xb(r) and ("|body:" not in r["cls"] or r["cls"].endswith("body:missing") or rng.random() < 0.12
                 or (r["cls"].startswith(("path:rel|", "path:arel|")) and r["body"][0] == "val" and r["body"][2]["k"] == "elem")
                 or (r["method"] == "PUT" and "qualifier_type" in r["rule"] and r["cls"].startswith(("valid|body:qual", "path:valid|body:qual")))
-                or r["cls"].endswith("body:upload-samename")]
+                or r["cls"].endswith("body:upload-samename")
+                or (r["body"][0] == "val" and "classchange" in str(r["cls"]) and r["cls"].startswith(("valid|", "path:coll|", "path:classchange|"))))]
         mx_run = keep
     else:
         mx_run = mx
@@ -153,7 +165,7 @@ def run(chk):
         plans.append((objs, files, k % 5 == 4, CS.random_history(rng, pool, hl, k % 5 == 4), False))
     for (label, backed, reqs, oracle_only) in CS.scenarios():
         plans.append(([], [], backed, reqs, False, not oracle_only))
-    n = run_cases(chk, srv, ex, plans, "C11")
+    n = run_cases(chk, srv, ex, plans, "C11", model=model)
     chk.cov["requests_compared_with_model"] = n
     chk.samples = [{"request": f"{r['method']} {H.url_of(r)}", "class": r["cls"]} for r in rng.sample(mx_run, 6)]
     chk.trusted = [
